@@ -90,10 +90,6 @@ def reshapeAndAddCoil (m : Mode) (mask : Tensor Int) (shape : List Nat) : Except
   else if mask.data.length ≠ prod (maskShapeNoCoil m shape) then .error .runtimeError
   else .ok { shape := maskShape m shape, data := mask.data.map (· != 0) }
 
-/-- numpy broadcasting of `a` against `b` (equal rank): every axis is `1` or equal. -/
-def broadcastsAgainst (a b : List Nat) : Bool :=
-  a.length == b.length && (a.zip b).all fun (x, y) => x == 1 || x == y
-
 /-! ## `_broadcast_mask` -/
 
 /-- `np.tile(row, (num_rows, 1))` flattened -/
@@ -396,12 +392,17 @@ def frameData (fam : Family) (rows : Nat) (pat : List Bool) : List Bool :=
   | .line | .ktLine => tileRows rows pat
   | .disc => pat
 
-/-- per-frame final assembly: `return_acs` → ACS, else `pattern ∨ acs`. -/
-def assembleFrame (fam : Family) (rows cols : Nat) (spec : AcsSpec) (returnAcs : Bool)
-    (interior : List Bool) : Option (List Bool) :=
-  match acsFrame fam rows cols spec interior with
-  | none => none
-  | some acs => some (frameData fam rows (if returnAcs then acs else orL interior acs))
+/-- per-frame final assembly given the frame's ACS pattern: `return_acs` → ACS, else `pattern ∨ acs`. -/
+def framePattern (returnAcs : Bool) (interior acs : List Bool) : List Bool :=
+  if returnAcs then acs else orL interior acs
+
+/-- all frames (`none` when the ACS of some frame cannot be built) -/
+def assembleFrames (fam : Family) (rows cols : Nat) (spec : AcsSpec) (returnAcs : Bool)
+    (interior : List (List Bool)) : Option (List (List Bool)) :=
+  if interior.all (fun p => (acsFrame fam rows cols spec p).isSome) then
+    some (interior.map fun p =>
+      frameData fam rows (framePattern returnAcs p ((acsFrame fam rows cols spec p).getD [])))
+  else none
 
 /-- expected length of one interior pattern -/
 def patLen (fam : Family) (rows cols : Nat) : Nat :=
@@ -422,7 +423,7 @@ def assemble (g : Gen) (m : Mode) (shape : List Nat) (spec : AcsSpec) (returnAcs
   | .ok () =>
     let rows := rowsOf shape
     let cols := colsOf shape
-    match interior.mapM (assembleFrame g.family rows cols spec returnAcs) with
+    match assembleFrames g.family rows cols spec returnAcs interior with
     | none => .error .valueError
     | some frames =>
       reshapeAndAddCoil m { shape := [frames.length, rows, cols], data := (frames.flatten.map fun b => if b then 1 else 0) } shape
